@@ -262,10 +262,11 @@ func checkC15(c *Ctx) {
 		if f == nil {
 			continue
 		}
-		for _, cl := range Calls(f) {
+		has := false
+		for _, cl := range CallsDeep(f) {
 			if IsCallTo(cl, "go.uber.org/zap.AddCallerSkip") {
 				v, ok := ConstInt(cl.Common().Args[0])
-				nStd++
+				has = true
 				if !ok {
 					stdAgree = false
 				} else if stdK == -999 {
@@ -274,6 +275,9 @@ func checkC15(c *Ctx) {
 					stdAgree = false
 				}
 			}
+		}
+		if has {
+			nStd++
 		}
 	}
 	c.Check(stdAgree && nStd == 3, "R15.1", zp+".NewStdLog/NewStdLogAt/redirectStdLogAt", "std-depth-constant", token.NoPos, "the three std-log bridges add the same caller skip (%d)", stdK)
